@@ -150,7 +150,7 @@ impl Prop for C06 {
 	}
 	fn budget(&self, tier: Tier) -> (u64, u64) {
 		match tier {
-			Tier::Quick => (100_000, 90),
+			Tier::Quick => (70_000, 90),
 			Tier::Thorough => (2_000_000, 1200),
 		}
 	}
